@@ -1,4 +1,4 @@
 #!/bin/sh
 # usage: tools/s5.sh C01/m1 C01 [more check ids]  -- run checks verbosely against a mutant scratch copy under /var/tmp/s5
-d=/var/tmp/${S5:-s8}/$1; shift
+d=/var/tmp/${S5:-s9}/$1; shift
 for id in "$@"; do SA_NO_EVIDENCE=1 SA_NO_BATTERY=1 /venv/bin/python -B -m sa.run $id --root $d 2>&1 | grep -v "^WARNING conda"; done
